@@ -290,3 +290,35 @@ func ZeroPtr() *int { return ZeroT[*int]() }
 func First[T comparable](xs []T) T { return xs[0] }
 
 func FirstErr(errs []error) error { return First(errs) }
+
+// Several returning blocks hanging off a flag: a refinement made in one must not leak into the others.
+type DErr struct{ msg string }
+
+func (e *DErr) Error() string { return e.msg }
+
+func Describe(err error, verbose bool) error {
+	if verbose {
+		_ = err.(*DErr).msg
+		return err
+	}
+	return err
+}
+
+func DescribePtr(p *int, verbose bool) *int {
+	if verbose {
+		_ = *p
+		return p
+	}
+	return p
+}
+
+func DescribeMode(m map[int]*int, mode int) map[int]*int {
+	if mode == 1 {
+		m[1] = nil
+		return m
+	}
+	if mode == 2 {
+		return m
+	}
+	return m
+}
